@@ -79,6 +79,7 @@ type FuncContract struct {
 	HasMods      bool
 	Uses         []string
 	Terminates   bool
+	InputAssume  map[string][]*Clause // "input Name: expr": well-formedness of external input assumed about the result of the traced call Name (a hypothesis of the property, listed in the evidence)
 	Quiet        bool // "quiet": the function (and what it inlines) must not write to the process's standard output (fmt.Print*): each such call is an obligation of kind stdout
 	MayPanic     bool // "panics": explicit panic statements of this function are documented behaviour (Must* helpers); reported as an assumption
 	Callbacks    []string
@@ -118,7 +119,7 @@ type ContractFile struct {
 var clauseKeywords = map[string]bool{
 	"pred": true, "def": true, "spec": true, "axiom": true, "func": true, "lemma": true, "commute": true,
 	"requires": true, "ensures": true, "modifies": true, "decreases": true, "loop": true,
-	"pure": true, "inline": true, "trusted": true, "terminates": true, "panics": true, "quiet": true, "callback": true, "ghost": true,
+	"pure": true, "inline": true, "trusted": true, "terminates": true, "panics": true, "quiet": true, "input": true, "callback": true, "ghost": true,
 }
 
 func ParseContractFile(path, pkg string) (*ContractFile, error) {
@@ -258,6 +259,21 @@ func ParseContractFile(path, pkg string) (*ContractFile, error) {
 						cur.CallbackRank[name] = n
 					}
 				}
+			case "input":
+				// input <traced call>: <expr over result>: assumed about what the external source delivers
+				name, ex, ok := strings.Cut(it.text, ":")
+				if !ok {
+					return nil, fail(fmt.Errorf("want: input <call>: <expr>"))
+				}
+				e, err := ParseExpr(ex)
+				if err != nil {
+					return nil, fail(err)
+				}
+				if cur.InputAssume == nil {
+					cur.InputAssume = map[string][]*Clause{}
+				}
+				name = strings.TrimSpace(name)
+				cur.InputAssume[name] = append(cur.InputAssume[name], &Clause{Kind: "ensures", Line: it.line, Expr: e, Src: strings.TrimSpace(ex)})
 			case "ghost":
 				// ghost name sort = init
 				lhs, rhs, ok := strings.Cut(it.text, "=")
